@@ -44,6 +44,12 @@ def effHigh (p : PV) : Bool :=
   | some (h, _) => h
   | none => p.highSome
 
+/-- `right_neighbor` after a response: replaced iff the response carries `new_right_neighbor` -/
+def rightAfter (nr : Option (Option Nat)) (old : Option Nat) : Option Nat :=
+  match nr with
+  | some x => x
+  | none => old
+
 /-- somebody holds a `Sender` of channel `j` -/
 def AHolder (a : AG) (j : Nat) : Prop :=
   ∃ i, i < a.n ∧ (((a.pv i).kind ≠ .done ∧ (a.pv i).right = some j) ∨ ∃ h, (a.pv i).resp = some (h, some (some j)))
@@ -103,7 +109,7 @@ inductive ATrans (a : AG) : AG → Prop where
   | recv (i : Nat) (h : Bool) (nr : Option (Option Nat)) (hi : i < a.n) (hresp : (a.pv i).resp = some (h, nr))
       (hgo : ∀ x, nr ≠ some (some x)) :
       ATrans a { a with pv := upd a.pv i { a.pv i with resp := none, highSome := h, kind := .run,
-                                                       right := match nr with | some x => x | none => (a.pv i).right } }
+                                                       right := rightAfter nr (a.pv i).right } }
   /-- the requester takes the response and asks the new right neighbour -/
   | resend (i j : Nat) (h : Bool) (hi : i < a.n) (hresp : (a.pv i).resp = some (h, some (some j))) :
       ATrans a { a with pv := upd a.pv i { a.pv i with resp := none, highSome := h, right := some j },
